@@ -517,16 +517,23 @@ def _pair(ctx, m, kind, rs, js):
         ctx.bad("R1", f"{site_key(js)}:sign", where(js), f"Jacobian term has sign {js.sign:+d}, RHS term {rs.sign:+d}",
                 expected=f"{rs.sign:+d}", found=js.text)
         good = False
+    from ..odemodel import not_understood
     if js.coeff != rs.coeff:
-        ctx.bad("R1", f"{site_key(js)}:coeff", where(js), "Jacobian term carries a different coefficient than the RHS term",
-                expected=show(rs.coeff), found=show(js.coeff))
+        # two values that were followed to the end and differ are different coefficients; one with a part that was not followed
+        # (a helper's result, a list filled elsewhere) may be the same text spelled another way
+        unk = (js.coeff is not None and not_understood(js.coeff)) or (rs.coeff is not None and not_understood(rs.coeff))
+        (ctx.unrec if unk else ctx.bad)("R1", f"{site_key(js)}:coeff", where(js), "Jacobian term carries a different coefficient than the RHS term"
+                                        + (" (one of the two is built from a value that was not followed)" if unk else ""),
+                                        **({} if unk else dict(expected=show(rs.coeff), found=show(js.coeff))))
         good = False
     if rs.seq and js.seq:
         same = norm_bv((js.seq["bv"], js.seq["body"], js.seq["base"], js.seq["ifs"])) == \
             norm_bv((rs.seq["bv"], rs.seq["body"], rs.seq["base"], rs.seq["ifs"]))
         if not same:
-            ctx.bad("R1", f"{site_key(js)}:factors", where(js), "Jacobian product is built from a different factor list than the RHS term",
-                    expected=show(rs.seq["base"]), found=show(js.seq["base"]))
+            unk = any(not_understood(x[k_]) for x in (js.seq, rs.seq) for k_ in ("body", "base"))
+            (ctx.unrec if unk else ctx.bad)("R1", f"{site_key(js)}:factors", where(js), "Jacobian product is built from a different factor list than the RHS term"
+                                            + (" (one of the two is built from a value that was not followed)" if unk else ""),
+                                            **({} if unk else dict(expected=show(rs.seq["base"]), found=show(js.seq["base"]))))
             good = False
         if js.seq["minus"] is None:
             good = False
